@@ -221,6 +221,29 @@ func init() {
 		}
 		return in.ts.Const(64, uint64(int64(v))), nil, true
 	})
+	rt("LenAny", func(in *Interp, s *State, c *callCtx) (Value, []*State, bool) {
+		sl, ok := c.args[0].(*Iface).V.(*Slice)
+		if !ok {
+			in.unsup("LenAny of non-slice")
+		}
+		return in.ts.Const(64, uint64(sl.Len)), nil, true
+	})
+	rt("SwapAny", func(in *Interp, s *State, c *callCtx) (Value, []*State, bool) {
+		sl, ok := c.args[0].(*Iface).V.(*Slice)
+		if !ok {
+			in.unsup("SwapAny of non-slice")
+		}
+		i, j := c.args[1].(*term.Term), c.args[2].(*term.Term)
+		if !i.IsConst() || !j.IsConst() {
+			in.unsup("SwapAny with symbolic index")
+		}
+		pi := sl.Arr.child(PathElem{Idx: sl.Off + int(i.Val)})
+		pj := sl.Arr.child(PathElem{Idx: sl.Off + int(j.Val)})
+		vi, vj := in.load(s, pi), in.load(s, pj)
+		in.store(s, pi, vj)
+		in.store(s, pj, vi)
+		return nil, nil, true
+	})
 	rt("Fatal", func(in *Interp, s *State, c *callCtx) (Value, []*State, bool) {
 		s.status = Fatal
 		s.msg = "Fatal: " + in.show(c.args[0]) + in.where(s)
